@@ -1,12 +1,13 @@
 #!/bin/bash
-# usage: tools/try_patch.sh <patch.diff> [check args...]   - apply a patch to /repo, run the check, always revert
+# usage: tools/try_patch.sh <patch.diff> [check args...]
+# Applies a patch in a scratch worktree of /repo (never in /repo itself) and runs the check against it.
 set -u
 P=$(readlink -f "$1"); shift
-cd /repo || exit 2
-if ! git diff --quiet; then echo "/repo has uncommitted changes"; exit 2; fi
-git apply "$P" || { echo "patch does not apply"; exit 2; }
+WT=/tmp/wt/try-$$
+git -C /repo worktree add -q $WT HEAD || exit 2
+git -C $WT apply "$P" || { echo "patch does not apply"; git -C /repo worktree remove --force $WT; exit 2; }
 cd /verif
-./check C13 "$@"; rc=$?
-git -C /repo checkout -- . ; git -C /repo clean -fdq src tests 2>/dev/null
+VERIF_WORK=/verif/work-try-$$ VERIF_REPO=$WT ./check C13 "$@"; rc=$?
+git -C /repo worktree remove --force $WT; rm -rf /verif/work-try-$$
 echo "check exit=$rc"
 exit $rc
